@@ -120,6 +120,16 @@ def gen_case(rng, variant=None):
         spec["tree"]["stack"] = R.gen_stack(rng, tickers, dates, allow_flow=False)
         spec["mult"] = {t: rng.choice([2.0, 10.0, 0.5, 100.0]) for t in tickers if rng.random() < 0.7} or {tickers[0]: 10.0}
         _fresh_prices(rng, spec)
+    if rng.random() < 0.35:
+        # somebody looks at the reports while the run is going on (before the scheduler: on every bar, the last one included)
+        def peek(tr):
+            st = tr.get("stack")
+            if st is not None:
+                st.insert(0 if rng.random() < 0.5 else rng.randint(0, len(st)), ["ReadReports", rng.randint(0, 10 ** 6)])
+            for kd in tr.get("kids") or []:
+                if isinstance(kd, dict):
+                    peek(kd)
+        peek(spec["tree"])
     return {"kind": "gen", "variant": v, "spec": spec}
 
 
